@@ -93,6 +93,8 @@ def extract(repo):
           "secret_control::Packet::decode dispatches on tag & !HAS_QUEUE_ID")
     m = re.search(r"buffer\.decode_slice\(super::(\w+)\)", scd)
     _flag(o, "secretDecoderTakesTagLen", bool(m and m.group(1) == "TAG_LEN"), "secret_control/decoder.rs: crypto tag = decode_slice(TAG_LEN)")
+    _flag(o, "secretAuthVerifiesHeader", bool(re.search(r"crypto\.verify\(header, crypto_tag\)\.ok\(\)\?;\s*Some\(value\)", scd)),
+          "impl_packet!: authenticate = crypto.verify(header, crypto_tag).ok()?; Some(value)")
     _flag(o, "upsTokenCompare", bool(re.search(r"verify_slices_are_equal\(self\.crypto_tag, stateless_reset\)\.ok\(\)\?", ups)),
           "unknown_path_secret::Packet::authenticate compares the crypto tag with the stateless reset token")
 
